@@ -281,7 +281,19 @@ func judge(c *pcase) (v verdict) {
 		if p == "dxil:prepare" {
 			inHash = irx.Hash(cur)
 		}
+		var preStores map[[2]int]int
+		if p == "dxil:dce" || p == "dxil:all" {
+			preStores = localStoreCounts(cur)
+		}
 		next, err := applyPass(cur, p)
+		if err == nil && preStores != nil && active("c13-dce-removes-live-store-to-local") && lostAllStoresButStillLoaded(next, preStores) {
+			v.skip = "known:c13-dce-removes-live-store-to-local"
+			return v
+		}
+		if err == nil && (p == "dxil:sroa" || p == "dxil:all") && active("c13-sroa-compose-without-type") && sroaUntypedCompose(next) {
+			v.skip = "known:c13-sroa-compose-without-type"
+			return v
+		}
 		if err != nil {
 			if strings.HasPrefix(err.Error(), "panic in pass") {
 				v.ok, v.msg = false, err.Error()
@@ -306,10 +318,6 @@ func judge(c *pcase) (v verdict) {
 	}
 	h1 := irx.Hash(cur)
 	v.changed = h1 != h0
-	if (hasPass(c.Passes, "dxil:sroa") || hasPass(c.Passes, "dxil:all")) && active("c13-sroa-compose-without-type") && sroaUntypedCompose(cur) {
-		v.skip = "known:c13-sroa-compose-without-type"
-		return v
-	}
 
 	// (b) well-formedness: nothing new relative to before
 	var issues1 []irx.Issue
@@ -367,10 +375,6 @@ func judge(c *pcase) (v verdict) {
 		v.ok, v.msg = false, fmt.Sprintf("after %v: %v", c.Passes, after.err)
 		return v
 	case after.res.Trap != "":
-		if strings.HasPrefix(after.res.Trap, "unsupported:") {
-			v.skip = "after:" + firstLine(after.res.Trap)
-			return v
-		}
 		if strings.HasPrefix(after.res.Trap, "phi-without-predecessor") && (hasPass(c.Passes, "dxil:dce") || hasPass(c.Passes, "dxil:all")) && active("c13-dce-removes-branch-of-phi") {
 			v.skip = "known:c13-dce-removes-branch-of-phi"
 			return v
@@ -560,6 +564,7 @@ var localKnownTags = map[string]bool{
 	"c13-mem2reg-store-before-loop-dropped":      true, // C13-13
 	"c13-compacttypes-not-idempotent":            true, // C13-14
 	"c13-sroa-full-compose-store-not-decomposed": true, // C13-15
+	"c13-dce-removes-live-store-to-local":        true, // C13-16
 }
 
 func exprKindOf(is irx.Issue) ir.ExpressionKind {
@@ -770,6 +775,7 @@ func sroaUntypedCompose(m *ir.Module) bool {
 			return
 		}
 		ty := irx.NewTypifier(m, fn)
+		ty.SSA = true
 		for h, e := range fn.Expressions {
 			c, ok := e.Kind.(ir.ExprCompose)
 			if !ok || c.Type != 0 || len(c.Components) == 0 {
@@ -781,10 +787,14 @@ func sroaUntypedCompose(m *ir.Module) bool {
 					all = false
 					break
 				}
-				ld, isLoad := fn.Expressions[comp].Kind.(ir.ExprLoad)
-				if !isLoad || !isLocalVarExpr(fn, ld.Pointer) {
+				switch k := fn.Expressions[comp].Kind.(type) {
+				case ir.ExprLoad:
+					if !isLocalVarExpr(fn, k.Pointer) {
+						all = false
+					}
+				case ir.ExprAlias:
+				default:
 					all = false
-					break
 				}
 			}
 			if !all {
@@ -948,6 +958,93 @@ func composeStoredToStructLocal(m *ir.Module) bool {
 			}
 		}
 		walk(ir.Block(fn.Body), 0)
+	})
+	return found
+}
+
+// localStoreCounts counts, per (function index, local variable), the Store statements whose
+// pointer is rooted at that variable (directly or through an access chain).
+func localStoreCounts(m *ir.Module) map[[2]int]int {
+	out := map[[2]int]int{}
+	fi := 0
+	eachFunction(m, func(fn *ir.Function) {
+		idx := fi
+		fi++
+		var walk func(b ir.Block, d int)
+		walk = func(b ir.Block, d int) {
+			if d > 500 {
+				return
+			}
+			for _, s := range b {
+				if st, ok := s.Kind.(ir.StmtStore); ok {
+					if v, ok := rootLocal(fn, st.Pointer, 0); ok {
+						out[[2]int{idx, int(v)}]++
+					}
+				}
+				for _, sb := range irx.SubBlocks(s.Kind) {
+					walk(sb, d+1)
+				}
+			}
+		}
+		walk(ir.Block(fn.Body), 0)
+	})
+	return out
+}
+
+func rootLocal(fn *ir.Function, h ir.ExpressionHandle, d int) (uint32, bool) {
+	if int(h) >= len(fn.Expressions) || d > 32 {
+		return 0, false
+	}
+	switch k := fn.Expressions[h].Kind.(type) {
+	case ir.ExprLocalVariable:
+		return k.Variable, true
+	case ir.ExprAccessIndex:
+		return rootLocal(fn, k.Base, d+1)
+	case ir.ExprAccess:
+		return rootLocal(fn, k.Base, d+1)
+	}
+	return 0, false
+}
+
+// lostAllStoresButStillLoaded: a local variable that was stored to before the pass has no store
+// left although an emitted Load still reads it (the stores were not dead).
+func lostAllStoresButStillLoaded(m *ir.Module, pre map[[2]int]int) bool {
+	post := localStoreCounts(m)
+	found := false
+	fi := 0
+	eachFunction(m, func(fn *ir.Function) {
+		idx := fi
+		fi++
+		emitted := map[ir.ExpressionHandle]bool{}
+		var walk func(b ir.Block, d int)
+		walk = func(b ir.Block, d int) {
+			if d > 500 {
+				return
+			}
+			for _, s := range b {
+				if e, ok := s.Kind.(ir.StmtEmit); ok {
+					for h := e.Range.Start; h < e.Range.End; h++ {
+						emitted[h] = true
+					}
+				}
+				for _, sb := range irx.SubBlocks(s.Kind) {
+					walk(sb, d+1)
+				}
+			}
+		}
+		walk(ir.Block(fn.Body), 0)
+		for h, e := range fn.Expressions {
+			ld, ok := e.Kind.(ir.ExprLoad)
+			if !ok || !emitted[ir.ExpressionHandle(h)] {
+				continue
+			}
+			if v, ok := rootLocal(fn, ld.Pointer, 0); ok {
+				k := [2]int{idx, int(v)}
+				if pre[k] > 0 && post[k] == 0 {
+					found = true
+				}
+			}
+		}
 	})
 	return found
 }
